@@ -198,4 +198,28 @@ def check(tier='quick', seed=0):
         return dict(reproduced=True, cases=cases, clause='after the set of missing data changed (same survey object, clean(computed)), misfit and gradient must be those of a fresh '
                     'simulation on the same data', finite_before=n_finite, rel_diff_gradient=float(np.abs(g_same - g_fresh).max() / np.abs(g_fresh).max()),
                     how='contracts.c07_concrete.check: gradient, then observed[0,1,0] delivered and observed[1,0,0] muted, clean, gradient again vs a fresh Simulation')
+    # a survey object that went through an earlier misfit evaluation (its data hold the weights of that evaluation) and whose uncertainty
+    # model was changed afterwards: whatever weights the reported misfit uses, the gradient must be the derivative of THAT reported misfit
+    survey, model, opts, rng = build(seed, 'isotropic', 'Resistivity', 1)
+    sv = survey.copy()
+    _ = emg3d.Simulation(sv, model, **opts).misfit
+    sv.relative_error = 0.2
+    sv.noise_floor = 3e-15
+    sim = emg3d.Simulation(sv, model, **opts)
+    g = np.asarray(sim.gradient).copy()
+    d = rng.standard_normal(g.shape)
+    gd = float(np.sum(g * d))
+    vals = []
+    for eps in (2e-3, 1e-3):
+        mfs = []
+        for sgn in (1, -1):
+            m2 = emg3d.Model(model.grid, property_x=model.property_x + sgn * eps * d, mapping='Resistivity')
+            mfs.append(float(emg3d.Simulation(sv, m2, **opts).misfit))          # same survey object, same stored state
+        vals.append((mfs[0] - mfs[1]) / (2 * eps))
+    fd = vals[1] + (vals[1] - vals[0]) / 3.0
+    cases += 1
+    if abs(fd - gd) > 2e-3 * max(abs(fd), abs(gd), 1e-30):
+        return dict(reproduced=True, cases=cases, clause='re-used survey whose uncertainties changed after an earlier misfit evaluation: directional derivative of the '
+                    'reported misfit == <gradient, direction>', finite_difference=fd, gradient_dot_direction=gd, rel=abs(fd - gd) / max(abs(fd), abs(gd)),
+                    how='contracts.c07_concrete.check: misfit once, then relative_error / noise_floor changed on the same Survey object, new Simulation on it')
     return dict(reproduced=False, cases=cases)
